@@ -1,6 +1,7 @@
 package main
 
 import (
+	"go/constant"
 	"go/token"
 	"go/types"
 	"strings"
@@ -66,6 +67,14 @@ func fieldFuncCall(typ, field string) CallPred {
 
 // loadsField: v is (a load of) field typ.field.
 func loadsField(v ssa.Value, typ, field string) bool {
+	return loadsFieldSeen(v, typ, field, map[ssa.Value]bool{})
+}
+
+func loadsFieldSeen(v ssa.Value, typ, field string, seen map[ssa.Value]bool) bool {
+	if seen[v] {
+		return false
+	}
+	seen[v] = true
 	switch x := v.(type) {
 	case *ssa.UnOp:
 		if x.Op == token.MUL {
@@ -73,7 +82,7 @@ func loadsField(v ssa.Value, typ, field string) bool {
 				return fieldAddrIs(fa, typ, field)
 			}
 			if s := singleStore(x.X); s != nil {
-				return loadsField(s, typ, field)
+				return loadsFieldSeen(s, typ, field, seen)
 			}
 		}
 	case *ssa.Field:
@@ -82,10 +91,10 @@ func loadsField(v ssa.Value, typ, field string) bool {
 			return true
 		}
 	case *ssa.ChangeType:
-		return loadsField(x.X, typ, field)
+		return loadsFieldSeen(x.X, typ, field, seen)
 	case *ssa.Phi:
 		for _, e := range x.Edges {
-			if loadsField(e, typ, field) {
+			if loadsFieldSeen(e, typ, field, seen) {
 				return true
 			}
 		}
@@ -231,10 +240,11 @@ func (w *World) MustReach(fn *ssa.Function, pred CallPred, depth int) bool {
 }
 
 // wrapMust: instruction predicate "is a call matching pred or a call to a module function that
-// must reach pred".
+// must reach pred" (must-summary to the given depth). A callee whose bool parameters receive
+// constants at the call site is specialised on them (rollback(true)).
 func (w *World) wrapMust(pred CallPred, depth int) func(ssa.Instruction) bool {
-	memo := map[*ssa.Function]int{} // 0 unknown, 1 yes, 2 no
-	var must func(f *ssa.Function, d int) bool
+	memo := map[*ssa.Function]int{} // 0 unknown, 1 yes, 2 no (unspecialised)
+	var must func(f *ssa.Function, d int, edge func(b *ssa.BasicBlock, i int) bool) bool
 	var stop func(d int) func(ssa.Instruction) bool
 	stop = func(d int) func(ssa.Instruction) bool {
 		return func(in ssa.Instruction) bool {
@@ -252,22 +262,36 @@ func (w *World) wrapMust(pred CallPred, depth int) func(ssa.Instruction) bool {
 				return false
 			}
 			cal := w.Callee(ci)
-			if cal == nil || !w.inModule(cal) {
+			if cal == nil || !w.inModule(cal) || len(cal.Blocks) == 0 {
 				return false
 			}
-			return must(cal, d)
+			// specialise on constant bool arguments
+			var edges []func(b *ssa.BasicBlock, i int) bool
+			args := ci.Common().Args
+			params := cal.Params
+			if len(args) == len(params) {
+				for i, a := range args {
+					if c, ok := a.(*ssa.Const); ok && c.Value != nil && c.Value.Kind() == constant.Bool {
+						edges = append(edges, assumeBool(params[i], constant.BoolVal(c.Value)))
+					}
+				}
+			}
+			if len(edges) > 0 {
+				return must(cal, d, andEdges(edges...))
+			}
+			return must(cal, d, nil)
 		}
 	}
-	must = func(f *ssa.Function, d int) bool {
-		if m := memo[f]; m != 0 {
-			return m == 1
+	must = func(f *ssa.Function, d int, edge func(b *ssa.BasicBlock, i int) bool) bool {
+		if edge == nil {
+			if m := memo[f]; m != 0 {
+				return m == 1
+			}
+			memo[f] = 2 // recursion: assume no
 		}
-		memo[f] = 2 // recursion: assume no
-		if len(f.Blocks) == 0 {
-			return false
-		}
-		ok := PathFromEntryAvoiding(f, stop(d-1), isReturn) == nil
-		if ok {
+		q := PathQ{Stop: stop(d - 1), Goal: isReturn, Edge: edge}
+		ok := q.FromEntry(f) == nil
+		if ok && edge == nil {
 			memo[f] = 1
 		}
 		return ok
